@@ -845,6 +845,22 @@ def unit_writer_file_sweep():
         f = WriterFileOracle()
         res = [sweep("C14/sweep/write to a file in the CID's encoding, read the file back", f.cases(ctx), f.check, "bounded", f.bound + (" (line ends of delimited output under line delimiter lf / cr: recorded finding K-10)" if f.known_k10 else ""),
                      describe=f.describe, function="validio.Writer + rowio writers + validio.rows", unit="C14.files")]
+        # encodings that map several characters to one byte sequence (recorded finding K-14): what is read back is not what was written
+        known14 = findings.is_known("K-14", "C14"); k14 = []
+        def lossy_cases():
+            for enc, ch in (("shift_jis", "\u00a5"), ("shift_jis", "\u203e"), ("euc_jp", "\u203e"), ("cp932", "\u00a2")):
+                for fmt in ("delimited", "fixed"): yield (fmt, "any" if fmt == "delimited" else "lf", enc, [[ch, "ab"]])
+            for enc in ("shift_jis", "euc_jp", "cp932"): yield ("delimited", "any", enc, [["ab", "cd"]])       # ordinary text under the same encodings round-trips
+        def lossy_check(c):
+            bad = f.check(c)
+            if bad and known14 and any(ch in "".join(c[3][0]) for ch in "\u00a5\u203e\u00a2") and ("read back" in str(bad.get("expected")) or "file content" in str(bad.get("expected"))): k14.append((c, bad)); return None
+            return bad
+        res.append(sweep("C14/sweep/encodings that are not one-to-one", lossy_cases(), lossy_check, "bounded", "yen sign / overline / cent sign under shift_jis, euc_jp, cp932 (delimited and fixed) + ordinary text under the same encodings" + (" (recorded finding K-14)" if known14 else ""),
+                         describe=f.describe, function="validio.Writer + validio.rows", unit="C14.files", props=["C14", "C12"]))
+        if k14:
+            c, bad = k14[0]
+            res.append(Result("C14/K-14 witness: under an encoding that is not one-to-one a written character reads back as another one", "bounded", FAILED, "native", finding="K-14", cases=len(k14), props=["C14", "C12"], detail=str(bad)[:300],
+                              replay={"verdict": "confirmed", "input": f.describe(c), "expected": bad.get("expected"), "observed": bad.get("observed")}))
         if f.k10:
             c, raw = f.k10[0]
             res.append(Result("C14/K-10 witness: delimited output ends its lines with CR LF although the CID declares another line delimiter", "bounded", FAILED, "native", finding="K-10", cases=len(f.k10), props=["C14"], detail=repr(raw)[:200],
